@@ -240,6 +240,8 @@ pub enum Step {
     Codec { case: CodecCase },
     /// a scripted multi-thread episode (C17)
     Threads { spec: crate::sched::ThreadSpec },
+    /// key rotation episode (C17): threads share a slot holding the current key set of changing principals
+    Rotation { spec: crate::rotate::RotationSpec },
     /// a repeated-operation history (C16a)
     History { node: usize, op: HistOp, count: u32, tag: u64 },
 }
@@ -327,6 +329,7 @@ impl Step {
             Step::Validate { .. } => "Validate",
             Step::Codec { .. } => "Codec",
             Step::Threads { .. } => "Threads",
+            Step::Rotation { .. } => "Rotation",
             Step::History { .. } => "History",
         }
     }
